@@ -18,7 +18,7 @@ func init() {
 	core.Register(&core.Prop{
 		ID:    "C06",
 		Level: "exploration",
-		Rule: "EXHAUSTIVE symbol sequences over the 22-symbol alphabet {8 block opens, else/elsif/when, 8 end tags, a plain tag, an object, text} up to length 4 (quick) / 5 (thorough), and over the reduced 9-symbol alphabet {if, for, case, else, when, endif, endfor, endcase, text} up to length 6 / 7; PRNG well-nested templates of depth up to 40 and all their one-edit neighbours (delete / duplicate / swap / replace one symbol). Every symbol is spelled with valid arguments so that only nesting can cause rejection. Every sequence containing a capture symbol is checked a second time (acceptance only) with the capture block spelled as an application-defined block (Engine.RegisterBlock) and the plain tag as an application-defined tag. Oracle: acceptance iff the reference nesting automaton accepts; rejected templates render nothing; for accepted ones the tree from Template.GetRoot() is isomorphic to the reference tree and a render with unique text markers shows each marker under exactly its enclosing blocks/clauses (two runs: conditions true / one-element loops, conditions false / empty loops). Non-trivial = the sequence contains at least one block, clause or end tag; distinct = distinct sequences.",
+		Rule: "EXHAUSTIVE symbol sequences over the 22-symbol alphabet {8 block opens, else/elsif/when, 8 end tags, a plain tag, an object, text} up to length 4 (quick) / 5 (thorough), and over the reduced 9-symbol alphabet {if, for, case, else, when, endif, endfor, endcase, text} up to length 6 / 7; PRNG well-nested templates of depth up to 40 and all their one-edit neighbours (delete / duplicate / swap / replace one symbol). Every symbol is spelled with valid arguments so that only nesting can cause rejection. Every sequence containing a capture symbol is checked a second time (acceptance only) with the capture block spelled as an application-defined block (Engine.RegisterBlock) and the plain tag as an application-defined tag. Oracle: acceptance iff the reference nesting automaton accepts; rejected templates render nothing; for accepted ones the tree from Template.GetRoot() is isomorphic to the reference tree and a render with unique text markers (what the last capture holds is printed at the end) shows each marker under exactly its enclosing blocks/clauses (two runs: conditions true / one-element loops, conditions false / empty loops). Non-trivial = the sequence contains at least one block, clause or end tag; distinct = distinct sequences.",
 		Exhaustive: func(string) bool { return true },
 		Assumptions: []string{
 			"comment and raw bodies are opaque up to their first end tag; an unclosed comment or raw is rejected like any other unclosed block",
@@ -323,6 +323,17 @@ func c06Check(c *core.Ctx, e *liquid.Engine, seq []ref.Sym, kind string) {
 	if !ok {
 		c.Obs("marker_render_not_stated", 1)
 		return
+	}
+	// what a capture block holds is content rendered under that block: print the captured variable at the end
+	for _, sy := range seq {
+		if sy == ref.SCapture {
+			if t2, p2 := core.ParsePlain(e, src+"[{{ v }}]"); p2.OK() {
+				tpl = t2
+				src += "[{{ v }}]"
+				ast = append(ast, gen.Text{S: "["}, gen.Out{E: gen.Var{Name: "v"}}, gen.Text{S: "]"})
+			}
+			break
+		}
 	}
 	m := &ref.Model{}
 	for run := 0; run < 2; run++ {
